@@ -25,7 +25,9 @@ package sched
 import (
 	"runtime"
 	"sort"
+	"strings"
 	"sync"
+	"sync/atomic"
 	"time"
 
 	"verifh/hx"
@@ -75,7 +77,13 @@ type Ctl struct {
 	events []Event
 	actors map[int]*actor
 	seen   int // events already handed out by Step
+	busy   int32 // actors inside a call that is known to return by itself (zero-timeout waits)
 }
+
+// Busy marks (d=+1) / unmarks (d=-1) a section that must finish before the system counts
+// as quiescent even if its goroutine looks blocked for a moment (a select on a timer that
+// is about to fire).
+func (c *Ctl) Busy(d int32) { atomic.AddInt32(&c.busy, d) }
 
 func New(free bool) *Ctl {
 	return &Ctl{Free: free, actors: map[int]*actor{}}
@@ -200,10 +208,10 @@ func (c *Ctl) Settle(timeout time.Duration) bool {
 	lastN := -1
 	for spin := 0; ; spin++ {
 		gs := hx.Stacks()
-		quiet := true
+		quiet := atomic.LoadInt32(&c.busy) == 0
 		for _, g := range gs[1:] { // gs[0] is the caller (running)
-			if !hx.Blocked(g) {
-				quiet = false
+			if !hx.Blocked(g) && !strings.Contains(g, "os/signal.signal_recv") {
+				quiet = false // (the signal-listener goroutine of core/proc sits in [syscall] forever)
 				break
 			}
 		}
